@@ -385,6 +385,71 @@ def c08_program(w, inp, c):
     w.seen(ser.s_code(c))
 
 
+def perturbations(d, rng):
+    """values that differ from d in exactly one field somewhere (public or private)"""
+    out = []
+    R = dataclasses.replace
+    out.append(('_nested', R(d, _nested=not d._nested)))
+    out.append(('future_annotations', R(d, future_annotations=not d.future_annotations)))
+    out.append(('stacksize', R(d, stacksize=d.stacksize + 1)))
+    out.append(('first_line_number', R(d, first_line_number=d.first_line_number + 1)))
+    out.append(('name', R(d, name=d.name + 'x')))
+    out.append(('filename', R(d, filename=d.filename + 'x')))
+    out.append(('freevars', R(d, freevars=d.freevars + ('zz',))))
+    out.append(('_additional_line', R(d, _additional_line=cd.AdditionalLine(7) if d._additional_line is None else None)))
+    out.append(('_additional_args', R(d, _additional_args=d._additional_args + (cd.Name('zz_unused', None),))))
+    if isinstance(d.type, cd.Function):
+        out.append(('type.docstring', R(d, type=R(d.type, docstring='other doc' if d.type.docstring != 'other doc' else None))))
+        out.append(('type.type', R(d, type=R(d.type, type='GENERATOR' if d.type.type != 'GENERATOR' else None))))
+    else:
+        out.append(('type', R(d, type=cd.Function())))
+    flat = [(bi, ii) for bi, b in enumerate(d.blocks) for ii in range(len(b))]
+    for _ in range(6):
+        if not flat:
+            break
+        bi, ii = rng.choice(flat)
+        ins = d.blocks[bi][ii]
+        k = rng.randrange(5)
+        if k == 0: new = R(ins, line_number=(ins.line_number or 0) + 1)
+        elif k == 1: new = R(ins, _n_args_override=3 if ins._n_args_override != 3 else None)
+        elif k == 2: new = R(ins, _line_offsets_override=ins._line_offsets_override + (0,))
+        elif k == 3 and hasattr(ins.arg, '_index_override'): new = R(ins, arg=R(ins.arg, _index_override=77 if ins.arg._index_override != 77 else None))
+        elif k == 4 and isinstance(ins.arg, Constant) and not isinstance(ins.arg.constant, CodeData):
+            c = ins.arg.constant
+            alt = {0.0: -0.0, 1: True, True: 1}.get(c, None) if isinstance(c, (int, float)) and c == c else None
+            if alt is None or (type(alt) is type(c) and repr(alt) == repr(c)):
+                continue
+            new = R(ins, arg=R(ins.arg, constant=alt))
+        else:
+            continue
+        blocks = list(d.blocks)
+        blk = list(blocks[bi]); blk[ii] = new; blocks[bi] = tuple(blk)
+        out.append(('instruction', R(d, blocks=tuple(blocks))))
+    return out
+
+
+def c08_perturb(w, inp, c):
+    d, e = try_(CodeData.from_code, c)
+    if e is not None:
+        return
+    rng = random.Random(hash(inp['label']) & 0xffff ^ w.seed)
+    base, e0 = try_(lambda: canon_code(d.to_code()))
+    for field, y in perturbations(d, rng):
+        w.stats['perturbed_pairs'] += 1
+        eq = (d == y)
+        w.op('M', 'dataeq %s | %s' % (ser.s_data(d), ser.s_data(y)), 'OK ' + ('T' if eq else 'F'))
+        if eq != (y == d):
+            w.violation('C08:eq-not-symmetric', inp, {'field': field})
+        if eq:
+            if hash(d) != hash(y):
+                w.violation('C08:equal-but-hash-differs', inp, {'field': field})
+            cy, e1 = try_(lambda: canon_code(y.to_code()))
+            if e0 is None and e1 is None and cy != base:
+                w.violation('C08:equal-data-encode-differently', inp, {'field': field})
+            if ser.s_data(d) != ser.s_data(y):
+                w.violation('C08:data-differing-in-a-field-compare-equal', inp, {'field': field})
+
+
 def run_C08(w):
     if w.shard == 0:
         c08_frozen(w)
@@ -394,6 +459,7 @@ def run_C08(w):
     if CAN_DECODE:
         for inp, c in programs(w, want=('fixed', 'special', 'gen')):
             w.guard(c08_program, w, inp, c)
+            w.guard(c08_perturb, w, inp, c)
 
 
 # ---------------------------------------------------------------------------------------------
@@ -502,9 +568,36 @@ def snapshot_value(res):
     return ('?', repr(res))
 
 
+def c12_synth(w, inp):
+    """from_json_data on hand-built documents (encoded strings at every position): no input node modified, repeatable"""
+    x = synth_data(random.Random(inp['subseed']))
+    for d in (x, x.normalize()):
+        j = json.loads(json.dumps(d.to_json_data()))
+        before = snapshot(j)
+        r1, e1 = try_(CodeData.from_json_data, j)
+        w.stats['calls'] += 1
+        if snapshot(j) != before:
+            w.violation('C12:argument-modified:from_json', inp, {})
+            return
+        r2, e2 = try_(CodeData.from_json_data, j)
+        if (e1 is None) != (e2 is None) or (e1 is None and ser.s_data(r1) != ser.s_data(r2)):
+            w.violation('C12:repeated-call-differs:from_json', inp, {})
+        if e1 is None:
+            j1, j2 = r1.to_json_data(), r1.to_json_data()
+            if mutable_ids(j1, set()) & mutable_ids(j2, set()):
+                w.violation('C12:returned-documents-share-mutable-state', inp, {})
+        ref = json.dumps(j, sort_keys=True)
+        if len(ref) < 20000:
+            w.op('M', 'heapfromjson ' + ser.s_json(j), 'OK modified=0')
+    w.seen(inp['subseed'])
+
+
 def run_C12(w):
     for inp, c in programs(w, want=('fixed', 'special', 'gen')):
         w.guard(c12_one, w, inp, c)
+    rng = random.Random(w.seed * 307 + w.shard)
+    for i in range({'quick': 400, 'search': 600}.get(w.tier, 8000) // w.nshards):
+        w.guard(c12_synth, w, {'kind': 'synthdoc', 'subseed': rng.randrange(1 << 30)})
 
 
 props.RUN['C07'] = run_C07
@@ -513,6 +606,7 @@ props.RUN['C12'] = run_C12
 props.ONE['C07'] = lambda w, inp, c: [c07_data(w, inp, CodeData.from_code(c), True), c07_data(w, inp, CodeData.from_code(c).normalize(), True)]
 props.ONE['C08'] = c08_program
 props.ONE['C12'] = c12_one
+props.REPLAY['synthdoc'] = lambda w, prop, inp: c12_synth(w, inp)
 props.REPLAY['synth'] = lambda w, prop, inp: c07_synth(w, inp)
 props.REPLAY['constpairs'] = lambda w, prop, inp: c08_consts(w, inp)
 props.REPLAY['frozen'] = lambda w, prop, inp: c08_frozen(w)
